@@ -313,7 +313,8 @@ def _pow(ex, args, kw, line):
         if not ex.branch_pruned(eq(g, 1)):
             ex.raise_("ValueError", line)
         r = SInt(INVMOD(T(a), T(m)))
-        ex.pc.append(z3.And(r.t >= 0, r.t < T(m), (T(a) * r.t) % T(m) == 1 % T(m)))
+        ex.pc.append(z3.And(r.t >= 0, r.t < T(m), sym.MOD(T(a) * r.t, T(m)) == sym.MOD(z3.IntVal(1), T(m))))
+        ex.assumptions.add("builtin pow(a, -1, m): ValueError iff gcd(a, m) != 1, else the inverse i with 0 <= i < m and a*i = 1 (mod m)")
         return r
     if isinstance(e, (int, SInt)):
         if not ex.entails(e >= 0 if isinstance(e, SInt) else e >= 0):
